@@ -423,24 +423,27 @@ def new_circuit(ex, st, e):
     return ObjRef(alloc(st, CircuitRec(goid, boid, name), "circuit"), "Circuit")
 
 
-def relabel_nodes(ex, st, e):
-    """nx.relabel_nodes(G, mapping) (copy=True): a NEW graph whose nodes are m(x) for x in G (m(x) = mapping[x] when x is
-    a key, else x), with the attributes of x and the edges mapped.  Assumed contract; requires m injective on the nodes
-    of G (otherwise networkx merges nodes) -- that requirement is emitted as an obligation at the call site."""
+def relabel_graph(ex, st, G, mp, e, inplace=False):
+    """the graph obtained from G by renaming x to m(x) (m(x) = mapping[x] when x is a key, else x): nodes m(x) for x in
+    G, the attributes of x, the edges mapped.  Assumed contract of networkx.relabel_nodes; it holds when m is injective
+    on the nodes of G (otherwise networkx merges nodes) and, for copy=False, when the key and value sets of the
+    mapping are disjoint and no value is an existing node (then the in-place renaming visits each key once and never
+    merges).  These requirements are emitted as obligations at the call site."""
     ctx = ex.ctx
-    used("networkx.relabel_nodes(copy=True)")
-    args, kwargs = ex.args_of(e, st)
-    if kwargs.get("copy", True) is not True:
-        raise Unsupported("relabel_nodes(copy=False)")
-    G = st.g(args[0])
-    mp = args[1]
     if not isinstance(mp, DictV) or mp.items is not None:
         raise Unsupported("relabel_nodes with an explicit dict")
     m = lambda x: z3.If(mp.dom(x), mp.val(x).term, x)
     x, y, u, v = ctx.fresh_name("rx"), ctx.fresh_name("ry"), ctx.fresh_name("ru"), ctx.fresh_name("rv")
-    ex.oblige(st, "relabel_nodes-mapping-injective-on-nodes", z3.ForAll([x, y], z3.Implies(z3.And(G.node(x), G.node(y), m(x) == m(y)), x == y)),
-              "pre-of-callee", getattr(e, "lineno", None))
-    st.pc.append(z3.ForAll([x, y], z3.Implies(z3.And(G.node(x), G.node(y), m(x) == m(y)), x == y)))
+    inj = z3.ForAll([x, y], z3.Implies(z3.And(G.node(x), G.node(y), m(x) == m(y)), x == y))
+    ex.oblige(st, "relabel_nodes-mapping-injective-on-nodes", inj, "pre-of-callee", getattr(e, "lineno", None))
+    st.pc.append(inj)
+    if inplace:
+        disj = z3.ForAll([x, y], z3.Implies(z3.And(mp.dom(x), mp.dom(y)), mp.val(x).term != y))
+        fresh = z3.ForAll([x], z3.Implies(z3.And(mp.dom(x), G.node(x)), z3.Not(G.node(mp.val(x).term))))
+        ex.oblige(st, "relabel_nodes(copy=False)-keys-and-values-disjoint", disj, "pre-of-callee", getattr(e, "lineno", None))
+        ex.oblige(st, "relabel_nodes(copy=False)-new-names-are-not-nodes", fresh, "pre-of-callee", getattr(e, "lineno", None))
+        st.pc.append(disj)
+        st.pc.append(fresh)
     N = define_set(ex, st, lambda t: z3.Exists([x], z3.And(G.node(x), t == m(x))), "rl_N")
     FI = define_fi(ex, st, lambda a, b: z3.Exists([u, v], z3.And(G.edge(u, v), a == m(u), b == m(v))), "rl_FI")
     pick = z3.Function(f"relabel_source!{next(ctx._n)}", ctx.Name, ctx.Name)
@@ -452,4 +455,19 @@ def relabel_nodes(ex, st, e):
     for ax in (z3.ForAll([y], z3.Select(ty, y) == z3.Select(G.ty, pick(y))), z3.ForAll([y], z3.Select(out, y) == z3.Select(G.out, pick(y)))):
         ctx.def_ids.add(ax.get_id())
         st.pc.append(ax)
-    return ObjRef(alloc(st, Graph(N, hasty, ty, hasout, out, FI), "graph"), "DiGraph")
+    return Graph(N, hasty, ty, hasout, out, FI)
+
+
+def relabel_nodes(ex, st, e):
+    """nx.relabel_nodes(G, mapping[, copy]): copy=True returns a NEW graph, copy=False renames in place (see relabel_graph)"""
+    args, kwargs = ex.args_of(e, st)
+    copy = kwargs.get("copy", True)
+    if not isinstance(copy, bool):
+        raise Unsupported("relabel_nodes with a symbolic copy flag")
+    used("networkx.relabel_nodes(copy=%s)" % copy)
+    G = st.g(args[0])
+    g2 = relabel_graph(ex, st, G, args[1], e, inplace=not copy)
+    if copy:
+        return ObjRef(alloc(st, g2, "graph"), "DiGraph")
+    st.set_g(args[0], g2)
+    return args[0]
